@@ -85,6 +85,15 @@ static int churn;			/* readers re-register / offline cycles */
 static int updaters_registered;
 static int sig_reader;			/* chaos signals whose handler runs a read section */
 static int tight;
+/* store-buffer stress: before its outermost rcu_read_lock() the reader issues plain stores to cache lines
+ * that hammer threads keep stealing, so that the store buffer drains slowly and the reader-word store of
+ * rcu_read_lock() sits behind them while the section's loads already execute.  Only the updater's
+ * sys_membarrier / the reader's own fence makes that store visible in time (x86-TSO) */
+static int sb_lines;
+static uint32_t n_slots = NSLOTS;	/* --slots=1 concentrates readers and updaters on one pointer */
+static volatile uint64_t *sb_area;	/* 64 cache lines, MAP_SHARED with the hammer processes */
+static int sb_stop;
+static uint64_t sb_sections;
 static const char *cfgname;
 static int g_sig_all;
 
@@ -224,7 +233,7 @@ static void *reader_main(void *arg)
 		struct obj *p[4];
 		rcu_read_lock();
 		for (int i = 0; i < nobj; i++) {
-			p[i] = rcu_dereference(slots[vp_rand_n(&t->rng, NSLOTS)]);
+			p[i] = rcu_dereference(slots[vp_rand_n(&t->rng, n_slots)]);
 			validate(p[i], "qsbr-deref");
 		}
 		mp_check(t);
@@ -278,11 +287,19 @@ static void *reader_main(void *arg)
 		int nobj = 1 + vp_rand_n(&t->rng, 3);
 		struct obj *p[4];
 
+		if (sb_lines) {
+			/* quiescent pause of random length: decorrelates the reader from the updater (every grace
+			 * period ends with a membarrier IPI on this CPU, which would phase-lock the two loops) */
+			vp_spin_cycles(vp_rand_n(&t->rng, (uint32_t) (120 * 2000)));
+			for (int i = 0; i < sb_lines; i++)
+				sb_area[i * 8] = (uint64_t) done;
+			sb_sections++;
+		}
 		rcu_read_lock();
 		uint64_t b = ts_after();
 		VP_STORE(t->in_section, 1);
 		for (int i = 0; i < nobj; i++) {
-			p[i] = rcu_dereference(slots[vp_rand_n(&t->rng, NSLOTS)]);
+			p[i] = rcu_dereference(slots[vp_rand_n(&t->rng, n_slots)]);
 			validate(p[i], "deref");
 		}
 		for (int d = 1; d < depth; d++)
@@ -290,6 +307,8 @@ static void *reader_main(void *arg)
 		mp_check(t);
 		if (reader_delay_mode)
 			vp_delay_heavy(&t->rng);
+		else if (sb_lines)
+			vp_spin_cycles(vp_rand_n(&t->rng, 4) ? 100000 + vp_rand_n(&t->rng, 200000) : vp_rand_n(&t->rng, 4000));	/* no store, no fence: the store buffer is left alone; long enough (50-150 us) to outlast a grace period */
 		for (int i = 0; i < nobj; i++)
 			validate(p[i], "after-delay");
 		/* inner unlocks do not end the section */
@@ -333,6 +352,43 @@ static void *reader_main(void *arg)
 	return NULL;
 }
 
+/* Hammer PROCESSES (not threads: they must not be targets of the library's membarrier IPIs, and their
+ * locked increments keep each line in another core's exclusive state most of the time) */
+#include <sys/mman.h>
+#include <sys/prctl.h>
+#include <sys/wait.h>
+static pid_t sb_hammer_pid[3];
+static int sb_nhammer;
+static void sb_start_hammers(int first_slot)
+{
+	sb_area = mmap(NULL, 64 * 64, PROT_READ | PROT_WRITE, MAP_SHARED | MAP_ANONYMOUS, -1, 0);
+	if (sb_area == MAP_FAILED) {
+		sb_area = NULL;
+		sb_lines = 0;
+		return;
+	}
+	for (int i = 0; i < 3; i++) {
+		pid_t pid = fork();
+		if (pid == 0) {
+			prctl(PR_SET_PDEATHSIG, SIGKILL);
+			vp_pin(first_slot + i);
+			for (;;)
+				for (int k = 0; k < 64; k++)
+					__atomic_fetch_add(&sb_area[k * 8], 1, __ATOMIC_SEQ_CST);
+		}
+		if (pid > 0)
+			sb_hammer_pid[sb_nhammer++] = pid;
+	}
+}
+static void sb_stop_hammers(void)
+{
+	for (int i = 0; i < sb_nhammer; i++) {
+		kill(sb_hammer_pid[i], SIGKILL);
+		waitpid(sb_hammer_pid[i], NULL, 0);
+	}
+	sb_nhammer = 0;
+}
+
 /* ------------------------------------------------------------------ updater */
 
 static void *updater_main(void *arg)
@@ -349,7 +405,7 @@ static void *updater_main(void *arg)
 		VP_STORE(t->registered, 1);
 	}
 	for (long i = 0; i < n_gp_per_updater; i++) {
-		int k = vp_rand_n(&t->rng, NSLOTS);
+		int k = vp_rand_n(&t->rng, n_slots);
 		struct obj *n = obj_new();
 		struct obj *old = rcu_xchg_pointer(&slots[k], n);
 
@@ -374,6 +430,8 @@ static void *updater_main(void *arg)
 			t->nwait++;
 		}
 		__atomic_store_n(&vt->progress, vt->progress + 1, __ATOMIC_RELAXED);
+		if (sb_lines)
+			vp_spin_cycles(vp_rand_n(&t->rng, 40000));	/* jitter against phase-locking, see reader */
 		if (!tight) {
 			uint32_t x = vp_rand_n(&t->rng, 100);
 			if (x < 30)
@@ -484,6 +542,8 @@ static void check_intervals(void)
 			}
 		}
 	}
+	if (sb_lines)
+		vp_counter_add("sections_entered_behind_contended_stores", sb_sections);
 	vp_counter_add("evaluations", evaluations);
 	vp_counter_add("nontrivial", nontrivial);
 	vp_counter_add("interval_pairs_checked", pairs);
@@ -508,6 +568,12 @@ int main(int argc, char **argv)
 	updaters_registered = (int) vp_arg_long("updaters-registered", 1);
 	sig_reader = (int) vp_arg_long("sig-reader", 0);
 	tight = (int) vp_arg_long("tight", 0);
+	sb_lines = (int) vp_arg_long("sb-lines", 0);
+	n_slots = (uint32_t) vp_arg_long("slots", NSLOTS);
+	if (n_slots < 1 || n_slots > NSLOTS)
+		n_slots = NSLOTS;
+	if (sb_lines > 64)
+		sb_lines = 64;
 	vp_tun_qs_attempts = (unsigned) vp_arg_long("tun-qs", 100);
 	vp_tun_wait_attempts = (unsigned) vp_arg_long("tun-wait", 1000);
 	vp_tun_bp_sleep_ms = (int) vp_arg_long("tun-bp-sleep", 10);
@@ -581,6 +647,8 @@ int main(int argc, char **argv)
 			if (!t->role && t->waits) { free(t->waits); t->waits = NULL; t->capwait = 0; }
 			if (t->role && t->secs) { free(t->secs); t->secs = NULL; t->capsec = 0; }
 		}
+		if (sb_lines && !sb_nhammer)
+			sb_start_hammers(nthr);
 		for (int i = 0; i < nthr; i++)
 			pthread_create(&thr[i].tid, NULL, i < n_readers ? reader_main : updater_main, &thr[i]);
 		for (int i = n_readers; i < nthr; i++)
@@ -588,6 +656,8 @@ int main(int argc, char **argv)
 		VP_STORE(stop_readers, 1);
 		for (int i = 0; i < n_readers; i++)
 			pthread_join(thr[i].tid, NULL);
+		if (sb_lines && sc == scenarios - 1)
+			sb_stop_hammers();
 
 		/* quiescence checks */
 		uint64_t sc_calls = 0, sc_rets = 0;
